@@ -11,7 +11,7 @@ def prop( pid, rules, decides, not_decided, technique, thorough_rules=(), assump
                        assumptions=list( assumptions ))
 
 
-prop( 'C05', [ 'S-STATUS', 'D-VALIDATE', 'W-ATTR', 'T-ALLOWED', 'T-TYPENAMES', 'K-KEYPASS', 'G-INIT', 'D-PATHSTOP', 'L-TEXTCODEC', 'D-UNPACKFMT', 'T-TYPEDLOOP', 'D-OWNPATH', 'T-SYMBOL', 'W-PRINT', 'F-FRAG', 'F-STATUS', 'D-NOSUCH', 'W-ASSERT', 'S-PHASE', 'T-BOOL', 'L-STRLEN' ],
+prop( 'C05', [ 'S-STATUS', 'D-VALIDATE', 'W-ATTR', 'T-ALLOWED', 'T-TYPENAMES', 'K-KEYPASS', 'G-INIT', 'D-PATHSTOP', 'L-TEXTCODEC', 'D-UNPACKFMT', 'T-TYPEDLOOP', 'D-OWNPATH', 'T-SYMBOL', 'W-PRINT', 'F-FRAG', 'F-STATUS', 'D-NOSUCH', 'W-ASSERT', 'S-PHASE', 'T-BOOL', 'L-STRLEN', 'D-ROUTE' ],
       decides='T-SYMBOL: the canonical form of a tag name is its lower-case spelling ( no case folding that maps distinct ISO-8859-1 names onto one symbol ), so a request naming an unknown tag cannot resolve to a configured one.  T-TYPEDLOOP as for C01.  D-VALIDATE also: the WHOLE requested extent ( path index + elements ) is asserted to lie inside the tag for reads and writes alike, ahead of any fragment being served or stored.  D-OWNPATH: in Object.request and Logix.request every access to the handler\'s own attributes is dominated by the assertion that the request path names this object (class and instance of resolve( data.path )): a request for an unknown object is refused, never served from or stored into the attribute of the same number.  L-TEXTCODEC: per codec class the producer encodes text with the character set its parser decodes with (an accepted STRING / SSTRING write stays readable and reads back equal).  D-UNPACKFMT: Set Attribute Single converts EVERY received element with the Attribute\'s own struct format (on every path to the store), so the stored values are in the tag type\'s range and the tag stays readable.  D-PATHSTOP (unknown-tag clause): device.resolve never skips a SYMBOLIC path segment - its skip test is false on every symbolic cell of the decision table and skipping is per segment ( continue, not break ), so a name behind a resolved tag ( A.foo, A[1].foo ) is resolved or refused, not served from A.  S-STATUS: typestate of data.status over the statement CFG of every CIP request handler - at every statement inside '
               'the try that may raise, the status is a known non-success constant (so a refused request is answered with a failure), '
               'the handler never re-raises or resets it, and at the named program points of Logix.request the codes are 0x05 (resolve/lookup), '
@@ -61,7 +61,7 @@ prop( 'C20', [ 'T-TNET', 'P-CHAIN', 'G-CHUNK', 'G-REF', 'P-SEPARATORS', 'T-TNETN
       not_decided='value round trip for all values, nesting depth; chunking beyond the separator / chain-unmodified / chunk-transparent-grammar clauses (dynamic).',
       technique='encoder/decoder idiom classification over dispatch chains (AST pattern matching); grammar extraction' )
 
-prop( 'C03', [ 'W-ATTR', 'D-VALIDATE', 'R-SNAPSHOT', 'D-TYPE', 'T-TYPENAMES', 'T-ATTRKEYS', 'T-SYMBOL', 'D-PATHSTOP', 'K-KEYPASS', 'T-RETAG', 'T-TAGLOOP', 'D-OWNPATH', 'D-UNPACKFMT', 'F-FRAG', 'P-ROUTEFIRST', 'F-STATUS', 'W-ASSERT', 'S-PHASE', 'T-BOOL', 'L-STRLEN', 'W-PRINT', 'W-ATTRTABLE' ],
+prop( 'C03', [ 'W-ATTR', 'D-VALIDATE', 'R-SNAPSHOT', 'D-TYPE', 'T-TYPENAMES', 'T-ATTRKEYS', 'T-SYMBOL', 'D-PATHSTOP', 'K-KEYPASS', 'T-RETAG', 'T-TAGLOOP', 'D-OWNPATH', 'D-UNPACKFMT', 'F-FRAG', 'P-ROUTEFIRST', 'F-STATUS', 'W-ASSERT', 'S-PHASE', 'T-BOOL', 'L-STRLEN', 'W-PRINT', 'W-ATTRTABLE', 'D-ROUTE' ],
       decides='T-TAGLOOP: main()\'s per-tag configuration loop reads no local on a path of the iteration that has not assigned it (no address / attribute carried over from the previous tag argument).  T-RETAG: setup_tag stores the CONFIGURED Attribute into the instance\'s attribute table at both sites (creation, replacement of an existing tag) - a replacement that stores the existing Attribute back keeps serving the array of an earlier configuration.  storage-discipline clauses only.  W-ATTR: tags are mutated only by statements reachable for the write services '
               '(Write Tag, Write Tag Fragmented, Set Attribute Single) - no read service and no refused request changes a tag; '
               'D-VALIDATE: the tag store is dominated by type and range validation, the stored slice is the validated (beg,end), the write-capacity '
@@ -268,7 +268,7 @@ prop( 'C15', [ 'B-ROUTE', 'D-REFUSE', 'C-MAIN', 'S-STATUS', 'T-SEGMENTS', 'P-BUN
       not_decided='textual route-path parsing (string -> segments) over all strings.',
       technique='exhaustive evaluation of a boolean AST over a finite abstract domain (decision-table check); dominance on the CFG' )
 
-prop( 'C01', [ 'T-TYPES', 'L-AGREE', 'L-DEFAULT', 'L-CODEC', 'T-SEGMENTS', 'T-NCP', 'K-NCPSTATE', 'A-OFFSETS', 'G-FRAME', 'L-SPEC', 'X-SERVICES', 'G-PRIMS', 'G-INIT', 'K-STALEMEMO', 'K-FOWIDTH', 'L-FRESH', 'L-PADSIZE', 'L-TEXTCODEC', 'T-TYPEDLOOP', 'L-SOCKADDR', 'L-PRODUCIBLE', 'L-STRLEN', 'L-UNITS', 'L-STATUSDATA', 'K-DIRECTION', 'T-BOOL', 'P-ORDER', 'L-CPFEMPTY', 'L-OBJREPLY' ],
+prop( 'C01', [ 'T-TYPES', 'L-AGREE', 'L-DEFAULT', 'L-CODEC', 'T-SEGMENTS', 'T-NCP', 'K-NCPSTATE', 'A-OFFSETS', 'G-FRAME', 'L-SPEC', 'X-SERVICES', 'G-PRIMS', 'G-INIT', 'K-STALEMEMO', 'K-FOWIDTH', 'L-FRESH', 'L-PADSIZE', 'L-TEXTCODEC', 'T-TYPEDLOOP', 'L-SOCKADDR', 'L-PRODUCIBLE', 'L-STRLEN', 'L-UNITS', 'L-STATUSDATA', 'K-DIRECTION', 'T-BOOL', 'P-ORDER', 'L-CPFEMPTY', 'L-OBJREPLY', 'L-LEGACYTEXT' ],
       decides='T-TYPEDLOOP: every element loop of typed_data is closed on its own type.  L-TEXTCODEC: per codec class the character set of .encode() in the producer equals decode= of its parser.  L-FRESH: inside every loop of a produce() a local assigned in the loop is assigned on every path of the iteration before it is read (accumulators excepted) - no element of a repetition is emitted with the value computed for the element before it.  L-PADSIZE: a size field counted in words of a padded payload is computed from the payload AFTER the pad has been appended (every path from the pad to the emission of the size passes the size computation, never the reverse).  layout-agreement clauses.  T-TYPES: every CIP scalar class has the spec\'s (type code, width, signedness, little-endian byte order), '
               'TYPE.produce packs and state_struct unpacks with the class format, TYPES_SUPPORTED and the 14-row typed_data dispatch are '
               'consistent; L-AGREE: for each of the 24 registered service machines, every layout variant the producer branch can emit '
